@@ -125,3 +125,14 @@ package extension
 //@   ensures #unset: pod == nil || pod.ObjectMeta.Annotations == nil || !has(pod.ObjectMeta.Annotations, AnnotationPodEvictionPriority) ==> result0 == 0 && result1 == nil
 //@   ensures #invalid: result1 != nil ==> result0 == 0
 //@   modifies nothing
+
+// The priority value eviction thresholds are compared with: the pod's own non-zero priority when it has one, else the
+// default value of its (defaulted) koordinator priority class (GetDefaultPriorityByPriorityClass is declared a pure
+// observer in /verif/lib/C09.spec, so it is used as such here).
+//@ spec func podPrioValue(pod *corev1.Pod) int32 = pod == nil ? PriorityNoneValueDefault : (pod.Spec.Priority != nil && deref(pod.Spec.Priority) != PriorityNoneValueDefault ? deref(pod.Spec.Priority) : GetDefaultPriorityByPriorityClass(podPrioDefault(pod)))
+
+//@ func GetPodPriorityValueWithDefault [C11]
+//@   requires rangesOK()
+//@   requires DefaultPriorityClass == PriorityNone
+//@   ensures #fn: result != nil && deref(result) == podPrioValue(pod)
+//@   modifies nothing
